@@ -82,7 +82,7 @@ def generate(plan) -> None:
     k["p_drop"] = 0.0 if ff else r.choice([0.0, 0.1, 0.3])
     k["p_dup"] = 0.0 if ff else r.choice([0.0, 0.1, 0.3])
     k["p_noise"] = 0.0 if ff else r.choice([0.1, 0.3, 0.6])
-    kinds = ["30C9_arr", "30C9_rp", "2309_arr", "2309_rp", "2349", "000A_arr", "000A_rp", "12B0", "0004", "2E04",
+    kinds = ["30C9_arr", "30C9_rp", "2309_arr", "2309_rp", "2349", "000A_arr", "000A_rp", "000A_i", "000A_i", "12B0", "0004", "2E04",
              "trv_30C9", "trv_3150", "trv_12B0", "trv_2309", "thm_30C9", "bdr_0008", "3150_fc", "3150_fc",
              "otb_3220", "otb_3220", "otb_3220"]
     if k["dhw"]:
@@ -99,7 +99,7 @@ def generate(plan) -> None:
             ops.append({"op": "adv", "s": r.choice(ADV)})
         elif x < k["p_noise"] + 0.13:
             ops.append({"op": "thresholds", "kind": r.choice(["30C9_arr", "30C9_rp", "2309_arr", "2309_rp", "2349", "000A_arr",
-                                                                "000A_rp", "12B0", "1F09", "1F09", "1F09", "3150", "rq", "w",
+                                                                "000A_rp", "12B0", "1F09", "1F09", "1F09", "1F09rp", "1F09rp", "3150", "rq", "w",
                                                                 "0005", "000C", "0006", "3220s", "3220p", "3220c", "1260", "10A0",
                                                                 "2E04", "313F", "0008", "10E0", "0004", "1FC9rp", "31DA"]),
                         "cd": r.choice([0, 1, 10, 1855, 2999, 65535, r.randrange(65536)])})
@@ -140,6 +140,7 @@ async def run(ctx) -> None:
     tcs = gwy.tcs
     zobj = {z: tcs.zone_by_idx[z] for z in zones}
     counter = [0]
+    unknown_zone = next((f"{i:02X}" for i in range(12) if f"{i:02X}" not in zones), None)
     # model: key -> list of (value, t_delivered (datetime), L, frame)  newest last
     model: dict[tuple, list] = {}
 
@@ -263,11 +264,15 @@ async def run(ctx) -> None:
         if kind in ("30C9_arr", "2309_arr"):
             code = kind[:4]
             vals = {zz: fresh_val() for zz in zones}
-            pl = "".join(f"{zz}{hx(v)}" for zz, v in vals.items())
+            els = [f"{zz}{hx(v)}" for zz, v in vals.items()]
+            if o.get("m") in ("02", "04") and unknown_zone is not None:  # ... plus a zone the gateway's schema does not have
+                els.insert(int(o["m"]) % (len(els) + 1), f"{unknown_zone}{hx(fresh_val())}")
+                hub.count("array_with_unknown_zone")
+            pl = "".join(els)
             frame = f" I --- {CTL} --:------ {CTL} {code} {len(pl) // 2:03d} {pl}"
             attr = "temperature" if code == "30C9" else "setpoint"
             ups = [(("zone", zz, attr), v / 100) for zz, v in vals.items()]
-            n = len(zones)
+            n = len(els)
         elif kind in ("30C9_rp", "2309_rp"):
             code = kind[:4]
             v = fresh_val()
@@ -288,6 +293,14 @@ async def run(ctx) -> None:
         elif kind == "000A_rp":
             v = fresh_val(2100, 3500)
             frame = f"RP --- {CTL} {GID} --:------ 000A 006 {z}1001F4{hx(v)}"
+            ups = [(("zone", z, "max_temp"), v / 100)]
+        elif kind == "000A_i":  # the controller announces one zone's new configuration (seen in the corpus as I|000A|006)
+            # (never within 3 s of the last message handled: directly after an I|000A array the library takes it for that array's
+            #  second fragment, by design -- detect_array_fragment -- and the pair then is one array message: not what is modelled)
+            clock.jump(3.5)
+            await asyncio.sleep(0.01)
+            v = fresh_val(2100, 3500)
+            frame = f" I --- {CTL} --:------ {CTL} 000A 006 {z}1001F4{hx(v)}"
             ups = [(("zone", z, "max_temp"), v / 100)]
         elif kind == "12B0":
             counter[0] += 1
@@ -413,6 +426,7 @@ async def run(ctx) -> None:
             "000A_rp": (f"RP --- {CTL} {GID} --:------ 000A 006 {z}1001F40DAC", 1),
             "12B0": (f" I --- {trv[z]} --:------ {CTL} 12B0 003 {z}0000", 1),
             "1F09": (f" I --- {CTL} --:------ {CTL} 1F09 003 FF{cd:04X}", 1),
+            "1F09rp": (f"RP --- {CTL} {GID} --:------ 1F09 003 00{cd:04X}", 1),
             "3150": (f" I --- {trv[z]} --:------ {CTL} 3150 002 {z}64", 1),
             "rq": (f"RQ --- {GID} {CTL} --:------ 2309 001 {z}", 1),
             "w": (f" W --- {GID} {CTL} --:------ 2309 003 {z}{hx(v)}", 1),
